@@ -33,6 +33,8 @@ def laws(p, q):
         ("next-0", ("next", 0, False, p), p, True),
         ("next-2", ("next", 2, False, p), ("next", 1, False, ("next", 1, False, p)), True),
         ("wnext-3", ("next", 3, True, p), ("next", 1, True, ("next", 1, True, ("next", 1, True, p))), True),
+        ("next-3", ("next", 3, False, p), ("next", 1, False, ("next", 1, False, ("next", 1, False, p))), True),
+        ("wnext-4", ("next", 4, True, p), ("next", 2, True, ("next", 2, True, p)), True),
         ("prev-2", ("prev", 2, False, p), ("prev", 1, False, ("prev", 1, False, p)), False),
         ("wprev-2", ("prev", 2, True, p), ("prev", 1, True, ("prev", 1, True, p)), False),
         ("eventually", ("evF", p), ("unt", T, p), True),
@@ -64,7 +66,7 @@ def grid_pairs(r, tier):
     p, q = ("a", "a"), ("a", "b")
     shapes = gen.unary_shapes()
     for name, lhs, rhs, head in laws(p, q):
-        full = name in ("next-0", "next-2", "wnext-3", "prev-2", "wprev-2") or tier != "quick"
+        full = name in ("next-0", "next-2", "wnext-3", "next-3", "wnext-4", "prev-2", "wprev-2") or tier != "quick"
         for u in (shapes if full else r.sample(shapes, 4)):
             out.append((name, u(lhs), u(rhs), False))
     return out
@@ -90,7 +92,12 @@ def head_grid_pairs(r, tier):
         k = (x[0], repr(x[1]), repr(x[2]))
         if k not in seen:
             seen.add(k); uniq.append(x)
-    return uniq if tier != "quick" else r.sample(uniq, min(len(uniq), 160))
+    if tier == "quick":
+        # the n-fold laws over an atom always (the step-wise shifting of a counted next shows only at later horizons)
+        keep = [x for x in uniq if x[0] in ("next-2", "next-3", "wnext-3", "wnext-4", "next-0") and "'b'" not in repr(x[1])]
+        rest = [x for x in uniq if x not in keep]
+        return keep + r.sample(rest, min(len(rest), 160))
+    return uniq
 
 def gen_pairs(seed, n, tier):
     r = random.Random(seed)
@@ -153,7 +160,8 @@ def _search_chunk(args):
         if head:
             t1 = "#program initial. &tel {{ {} }}. #program always. {{ a; b }}.".format(tl.render_tel(lhs))
             t2 = "#program initial. &tel {{ {} }}. #program always. {{ a; b }}.".format(tl.render_tel(rhs))
-            r1, r2 = oracles.impl_models(t1, H, dedup=True), oracles.impl_models(t2, H, dedup=True)
+            HH = 5 if name.startswith(("next-", "wnext-")) else H
+            r1, r2 = oracles.impl_models(t1, HH, dedup=True), oracles.impl_models(t2, HH, dedup=True)
             if "Timeout" in (r1[1] if r1[0] == "err" else "", r2[1] if r2[0] == "err" else ""):
                 continue      # slow is not wrong (clause unfolding of nested until/release is exponential)
             if r1 != r2:
